@@ -13,14 +13,18 @@ SHRINK_SEP = ";"
 RULE = ("a case is a call history on ONE FFT object (`fft <f64|f32> ; op ; … ; op`, ops: update_n, multiply, multiply_into with a "
         "pre-filled destination, fft, fft_into, fft_inv, fft_inv_into, fft+pointwise product+fft_inv on the same object (`fm`) and with "
         "the inverse on a brand-new object (`fmx`)); the answer is the result of the LAST call, compared (i) as rounded i64 vector with "
-        "the exact integer convolution (Lean `conv` = spec, and independently an i128 schoolbook oracle in the harness), (ii) with the "
-        "same call on a brand-new object, bit for bit (`fresh=same`), (iii) raw, incl. the bit patterns of fft()/fft_into() outputs, with "
-        "the Lean model executed on IEEE binary64 / binary32. Generators: every length pair 1..=40 x 1..=40; lengths 2^k-1, 2^k, 2^k+1 "
-        "against 1,2,3,33 and against each other and every split with |a|+|b|-1 in {2^k-1..2^k+2}, k <= 12 (quick) / 17 (thorough); "
-        "random structured lengths; coefficient patterns mixed-sign / all +max / all -max / alternating / sparse / non-negative / "
-        "ends / ramp scaled to the envelope max^2*min(len) = 1e12 (f64) resp. 1e3 (f32, >= 100x inside CORRECT_F32_BOUNDS); histories "
-        "fresh / larger / smaller / same / interleaved; destinations shorter, equal, longer than |a|+|b|-1 and non-zero. "
-        "non-trivial = distinct in-domain case whose last call transforms at least 4 points")
+        "the exact integer convolution (Lean `conv` = spec, proved equal to the coefficient formula `convSpec`; independently an i128 "
+        "schoolbook oracle in the harness), (ii) with the same call on a brand-new object, bit for bit (`fresh=same`), (iii) raw, incl. "
+        "the bit patterns of fft()/fft_into() outputs, with the Lean model executed on IEEE binary64 / binary32. Spec domain = the "
+        "property's literal envelope max^2*min(len) <= 1e12 (f64) / 1e3 (f32, >= 100x inside CORRECT_F32_BOUNDS). Generators: every "
+        "length pair 1..=40 x 1..=40; lengths 2^k-1, 2^k, 2^k+1 against 1,2,3,33 and against each other and every split with "
+        "|a|+|b|-1 in {2^k-1..2^k+2}, k <= 12 (quick) / 17 (thorough); random structured lengths; coefficient patterns mixed-sign / "
+        "all +max / all -max / alternating / sparse / non-negative / ends / ramp scaled to max^2*max(len) = bound (the sub-envelope "
+        "precision.rs actually tabulates: both operands of length L; at min(len)=max(len) it is the literal envelope); BETWEEN the two "
+        "envelopes (very unbalanced lengths) only the two recorded inputs of known finding F10 are generated, every run; histories "
+        "fresh / larger / smaller / same / interleaved; destinations shorter, equal, longer than |a|+|b|-1 and non-zero; a small "
+        "out-of-domain stream (update_n asserts, coefficients at i32::MAX) where only model = implementation is compared. "
+        "non-trivial = distinct in-domain case whose last call carries at least 3 coefficients")
 ASSUMPTIONS = [
     "the Lean model of rlib_fft is hand-written; it is tied to the code by running both on the same call histories",
     "Lean `Float`/`Float32` arithmetic, `sin`, `cos`, `round` and Rust f64/f32 are the same IEEE-754 / libm operations on this machine "
@@ -30,10 +34,29 @@ ASSUMPTIONS = [
     "harness built with overflow-checks=true",
 ]
 MANIFEST = {
-    "level": "proof",
-    "text": "filled in below",
-    "note": "filled in below",
-    "technique": "Lean 4 proof of a hand-written model polymorphic in the arithmetic + differential correspondence check against the Rust crate",
+    "level": "proof (partial)",
+    "text": ("Lean 4 theorems over a model of FFT<F> that is polymorphic in the arithmetic (a record of the operations complex.rs performs, "
+             "no laws). Level A, for EVERY arithmetic, hence bit for bit for f32/f64: update_n refines the doubling recursion (canonical "
+             "tables, `tables_canonical`), a grown table read with fft_internal's stride/shift is the table of the smaller size "
+             "(`stride_w`, `stride_rev`), fft_internal gives the same buffer on objects with any two histories (`fft_internal_table_indep`), "
+             "every public call returns on a used object exactly what it returns on a brand-new one for ALL call histories incl. panicking "
+             "calls (`call_history_independent`, `multiply_history_independent`, fft / fft_inv / forward-pointwise-inverse variants), "
+             "multiply has length |a|+|b|-1 or is empty, multiply_into ADDS the product on the common prefix (`multiply_into_adds`). "
+             "Level B, exact complex arithmetic (Mathlib ℂ, tw = e^{i*pi*i/cur}): the twiddle table is the roots of unity, fft_internal is "
+             "the DFT / inverse DFT (iterative Cooley-Tukey over the bit-reversal table, `fft_internal_is_dft`), multiply returns and "
+             "multiply_into adds exactly the integer convolution sum_{s+t=u} a_s b_t for all lengths and signs (`multiply_exact`, "
+             "`multiply_into_exact`; packing a+ib, conjugate-symmetry unpacking, half-size inverse), forward-pointwise-inverse = multiply "
+             "(`fft_mul_inv_eq_multiply`). The hand-written model is tied to rlib_fft by a differential run on every check."),
+    "note": ("PARTIAL: NOT proved, only TESTED differentially on every run: that the IEEE-754 rounding error of this operation sequence "
+             "(binary64 / binary32, libm sin/cos) stays below 0.5 inside the envelope, i.e. that the float instance rounds to the value the "
+             "exact instance is proved to have. Tested at the envelope boundary max^2*max(len) = 1e12 (f64) / 1e3 (f32) with 8 coefficient "
+             "patterns, all length pairs <= 40, lengths around every power of two up to 2^12 (quick) / 2^17 (thorough). Unbalanced operands "
+             "BETWEEN max^2*max(len) and the property's literal max^2*min(len) bound are covered only by the two recorded inputs of known "
+             "finding F10 (a=[1000000] x 4096-term ramp in f64, a=[31] x 8192-term ramp in f32), where the real code is off by one: the "
+             "literal envelope over-claims there. Fixed finding F9 (fft_inv on a fresh object, /repo 3d98b12) is replayed from corpus/C04.txt. "
+             "Trusted: Lean kernel, axioms propext/Classical.choice/Quot.sound, Mathlib, the hand-written model (checked against the code "
+             "on the generated histories, raw comparison includes bit patterns of fft() outputs), Lean Float/Float32 = IEEE, harness, driver."),
+    "technique": "Lean 4 proof of a hand-written model polymorphic in the arithmetic (all arithmetics + exact ℂ) + differential correspondence check against the Rust crate; rounding residue tested, not proved",
     "design_ref": "DESIGN.md §6 C04",
 }
 
